@@ -32,7 +32,8 @@ RULE = ("one run = (platform {Ledger, SGX}, command {onboard, unlock, changepin,
         "0..2 invalid attempts (incl. letters / digits outside ASCII, the PIN with a stray blank / tab / CR), --anypin, answers yes / no / "
         "other-then-yes / other-then-no / 3..5 non-answers then no or EOF, --nounlock, "
         "--noexec}); enumerated: the full product of the enum dimensions; seeded: PIN strings and "
-        "entropy, a failing onboarded or mode query, one link fault addressed by instruction, a blank device "
+        "entropy, a failing onboarded or mode query, one link fault addressed by instruction (answer lost, "
+        "exchange failing, or answer arriving late and staying queued on the handle), a blank device "
         "after the re-plug, and the device replaced by another one (onboarded / unlocked / blank) while "
         "the tool waits at its first or second prompt; non-trivial = at least one APDU reached the device; distinct = the scenario tuple")
 MUTANT_WALL = 150
